@@ -120,6 +120,12 @@ def run_cases(ctx, worlds_cases, par=300, timeout=3000):
     if cs and tot["found"] != matched_total:
         ctx.violation("connstats:found-count", "statistics count %d found connections, %d were matched" % (tot["found"], matched_total), {"stats": cs})
     ctx.stage("C", connstats_batches=len(cs))
+    # application data too short to identify its covert connection (< 8 bytes) and carried by several cases: exactly as many
+    # covert connections received those bytes as cases were matched
+    for g in [r for r in rows if r.get("kind") == "covert_group"]:
+        if g["conns"] != g["matched"]:
+            ctx.violation("covert-conns:group-mismatch", "%d matched connections carried the application data %s but %d covert connections "
+                          "received exactly it" % (g["matched"], g["data"], g["conns"]), g)
     out = []
     for r in rows:
         if "case" in r:
